@@ -12,6 +12,7 @@ import (
 
 // VC is one proof obligation ready for the solvers.
 type VC struct {
+	Local bool // a postcondition that callers do not get as a premise (its failure does not make their proofs conditional)
 	Name    string
 	Prop    string
 	Kind    string // post, law.range, law.refl, law.antisym, law.trans, pre, safe.*, frame, lemma, vacuity
@@ -143,6 +144,7 @@ func (e *Exec) assumeRequires(ct *Contract) bool {
 		return true
 	}
 	env := e.envFor(nil)
+	env.fullNested = true // a precondition such as "every element of every group is non-nil" is needed at pairs of iteration indices
 	// quantified preconditions are instantiated at the goal constants and at the iteration indices of the loops
 	env.instAt = append([]Term{}, e.goalSk...)
 	for _, sm := range e.summaries {
@@ -294,6 +296,7 @@ func (w *World) functionVCsT(fn *ssa.Function, prop string, prove map[string]boo
 				}
 				pvc := w.mkVC(g, fmt.Sprintf("%s.post[%s]/%s", key, tagLabel(cl, prove, prop), clauseLabel(cl, cl.ord)), prop, "post", key, cl.src,
 					append(g.groupLines(cl.using, false), "(assert "+returned+")", "(assert (not "+t.t+"))"), w.pos(fn.Pos()), e.replaySpec())
+				pvc.Local = len(cl.using) > 0 // not handed to callers as a premise
 				if cl.expr.op == "binary" && cl.expr.name == "==>" && len(e.rets) > 1 {
 					env.skNext = 0
 					saved := env.instAt
